@@ -169,3 +169,34 @@ pub(crate) fn trace_extracted(ctx: &AnchorContext, atomic: &[super::pq::ast::Sql
         }
     });
 }
+
+/// Brackets one call of `compile_relation_instance` in the trace: which relation is referenced, whether it still has to be
+/// defined, and whether a CTE may / should be used for it.
+pub(in crate::sql) struct InstanceTrace;
+
+impl InstanceTrace {
+    pub(in crate::sql) fn begin(ctx: &Context, riid: &super::pq::context::RIId) -> InstanceTrace {
+        use super::pq::context::RelationStatus;
+        let inst = &ctx.anchor.relation_instances[riid];
+        let tid = inst.table_ref.source;
+        let defined = ctx
+            .anchor
+            .table_decls
+            .get(&tid)
+            .map(|d| matches!(d.relation, RelationStatus::Defined));
+        trace_event(serde_json::json!({
+            "event": "instance_begin",
+            "tid": tid,
+            "defined": defined,
+            "prefer_cte": inst.table_ref.prefer_cte,
+            "allow_ctes": ctx.query.allow_ctes,
+        }));
+        InstanceTrace
+    }
+}
+
+impl Drop for InstanceTrace {
+    fn drop(&mut self) {
+        trace_event(serde_json::json!({ "event": "instance_end" }));
+    }
+}
